@@ -2036,6 +2036,13 @@ def load_rebuild(rep, ex: Explorer):
                     inner = n.func
                 if inner is not None and isinstance(inner.value, _ast.Name) and inner.value.id == "self" and inner.attr in none_attrs:
                     derefs.append((inner.attr, n.lineno))
+            # (a helper of the object that rebuilds the attribute counts for the method that calls it)
+            for n in _ast.walk(fi.node):
+                if isinstance(n, _ast.Call) and isinstance(n.func, _ast.Attribute) and isinstance(n.func.value, _ast.Name) and n.func.value.id == "self" and n.func.attr in methods:
+                    for hf in methods[n.func.attr]:
+                        for m in _ast.walk(hf.node):
+                            if isinstance(m, _ast.Attribute) and isinstance(m.value, _ast.Name) and m.value.id == "self" and m.attr in none_attrs and isinstance(m.ctx, _ast.Store):
+                                assigned.add(m.attr)
             for a, line in derefs:
                 ok = a in assigned or a in tested
                 rep.check(ok, "STATE.pickled", f"{site}:{line}", f"self.{a} after a load", "an attribute that load_ocf leaves as None is rebuilt or tested before it is used by anything a loaded object can run",
